@@ -162,6 +162,7 @@ def eval_case(case: dict) -> dict:
                 cnt['blocks_of_a_thousand_lines_and_more'] = 1
             if str(tb) != ''.join(x + '\n' for x in expected):
                 _viol(out, 'string-form-differs-from-lines', case, got=str(tb)[-120:])
+            operands = []
             for op, enc in case['ops']:
                 arg = T.decode(enc, TB)
                 arg_lines = T.ref_lines(enc)
@@ -179,8 +180,13 @@ def eval_case(case: dict) -> dict:
                     new = tb + arg
                     if tb.lines != left_before:
                         _viol(out, 'add-mutates-left-operand', case)
-                    if new is tb:
-                        _viol(out, 'add-returns-self', case)
+                    if new is tb or new is arg:
+                        # a sum is a block of its own, whichever operand is empty: what is
+                        # appended to it later is not appended to an operand
+                        _viol(out, 'add-returns-self' if new is tb else 'add-returns-its-right-operand',
+                              case, left_lines=len(left_before))
+                    if isinstance(arg, TB):
+                        operands.append((arg, list(arg.lines), str(arg)))
                     tb = new
                 expected.extend(arg_lines)
                 cnt['concatenations'] = cnt.get('concatenations', 0) + 1
@@ -194,6 +200,12 @@ def eval_case(case: dict) -> dict:
                     _viol(out, 'string-form-differs-from-lines', case, after=op,
                           expected_tail=expected[-3:], got=str(tb)[-120:])
                     break
+            for operand, lines_then, str_then in operands:
+                cnt['right_operands_of_a_sum_compared_at_the_end'] = \
+                    cnt.get('right_operands_of_a_sum_compared_at_the_end', 0) + 1
+                if operand.lines != lines_then or str(operand) != str_then:
+                    _viol(out, 'operand-of-a-sum-changed-by-later-appends', case,
+                          before=lines_then[:8], after=operand.lines[:8])
         elif kind == 'trim':
             tb = TB()
             tb.lines = list(case['lines'])
@@ -342,7 +354,8 @@ def main(tier: str) -> int:
                 'blocks_poured_into_blocks',
                 'cond_chunks', 'roundtrips', 'cases_with_line_boundaries',
                 'pieces_that_are_one_object_at_several_places',
-                'blocks_of_a_thousand_lines_and_more')
+                'blocks_of_a_thousand_lines_and_more',
+                'right_operands_of_a_sum_compared_at_the_end')
     jobs = [(run.seed, i, per) for i in range(total // per)]
     for _item, res in run.pmap(_worker, jobs):
         if 'harness_error' in res:
